@@ -5,18 +5,18 @@ open Lean
 namespace PGM.Driver
 open PGM PGM.JT PGM.Loss
 
-def decMeas (j : Json) : Except String (Meas ExtQ) := do
+def decMeas {α : Type} [Codec α] (j : Json) : Except String (Meas α) := do
   let rows ← (← j.getObjVal? "Q").getArr?
-  let Q : List (List ExtQ) ← rows.toList.mapM decList
-  let y : List ExtQ ← decList (← j.getObjVal? "y")
-  let noise : ExtQ ← Codec.dec (← j.getObjVal? "noise")
+  let Q : List (List α) ← rows.toList.mapM decList
+  let y : List α ← decList (← j.getObjVal? "y")
+  let noise : α ← Codec.dec (← j.getObjVal? "noise")
   let proj : List Attr ← decList (← j.getObjVal? "proj")
   pure ⟨Q, y, noise, proj⟩
 
 def handleLoss (req : Json) : Except String Json := do
   let dom ← decDom (← req.getObjVal? "dom")
   let cliques ← decCliques (← req.getObjVal? "cliques")
-  let meas ← (← (← req.getObjVal? "meas").getArr?).toList.mapM decMeas
+  let meas : List (Meas ExtQ) ← (← (← req.getObjVal? "meas").getArr?).toList.mapM decMeas
   let mu : CliqueVec ExtQ ← decCliqueVec (← req.getObjVal? "mu")
   let eigs : List ExtQ ← decList (← req.getObjVal? "eigs")
   let (loss, grad) := marginalLoss dom cliques meas mu
